@@ -14,10 +14,9 @@
     none for a character outside), and a zero-width character is kept (only if it sits inside [a, b]) or
     dropped - never invented, moved or restyled. Holds for all `a b : Nat` (no `a ≤ b ≤ W+2` needed).
   * `C10_slice_width`: hence the width of the result is the number of requested columns that exist.
-  * NOT proved as a separate theorem: the flattened column view of DESIGN section 3 (`C10_cols_full_statement`
-    at the end of this file: the columns of the result are columns a..b-1 of `f` with an orphaned half replaced by
-    a space of the same formatting). It is a consequence of `SliceRel` (same information, flattened); it is what
-    the harness oracle evaluates on every run.
+  * `C10_cols : C10_cols_full_statement`: the flattened column view of DESIGN section 3 (`cols`: a double-width
+    character fills a left and a right column, zero-width characters none): the columns of the result are columns
+    a..b-1 of `f` with an orphaned half replaced by a space of the same formatting. Derived from `SliceRel`.
 -/
 import Curtsies.Proofs.Width
 namespace Curtsies
@@ -372,7 +371,7 @@ example : widthAwareSlice exEnv exF (.slice (some 1) (some 6) false)
     = .ok [⟨['Ｅ'], {fg := some 1}⟩, ⟨[], {}⟩, ⟨['́', 'Ｅ', 'b'], {bold := some true}⟩] := (isOk_iff _ _).mp (by decide +kernel)
 
 
-/-! ### the column view of DESIGN section 3 (statement kept visible; not proved separately, see header) -/
+/-! ### the column view of DESIGN section 3 -/
 
 /-- one terminal column: a narrow character, or the left / right half of a double-width one -/
 inductive ColCell
@@ -391,14 +390,259 @@ def cols (u : UEnv) : List Cell → List ColCell
 def cutHead : List ColCell → List ColCell
   | .right _ a :: rest => .narrow ' ' a :: rest
   | l => l
-def cutLast (l : List ColCell) : List ColCell :=
-  match l.reverse with
-  | .left _ a :: rest => (ColCell.narrow ' ' a :: rest).reverse
-  | _ => l
+def cutLast : List ColCell → List ColCell
+  | [] => []
+  | [.left _ a] => [.narrow ' ' a]
+  | [y] => [y]
+  | y :: z :: rest => y :: cutLast (z :: rest)
 
 def C10_cols_full_statement : Prop :=
   ∀ (u : UEnv) (f : FmtStr) (a b : Nat), u.sane (text f) → u.wcwidth ' ' = 1 → a ≤ b →
     ∃ r, widthAwareSlice u f (.slice (some a) (some b) false) = .ok r ∧
       cols u (cells r) = cutHead (cutLast (((cols u (cells f)).take b).drop a))
+
+
+/-! ### proof of the column view from `SliceRel` -/
+
+/-- what the window [a, b) shows of the cells `l` laid out from column `col` -/
+def window (u : UEnv) (a b : Nat) : Nat → List Cell → List ColCell
+  | _, [] => []
+  | col, (c, tt) :: rest =>
+    if u.wcwidth c = 1 then
+      (if a ≤ col ∧ col < b then [ColCell.narrow c tt] else []) ++ window u a b (col + 1) rest
+    else if u.wcwidth c = 2 then
+      (if a ≤ col ∧ col + 1 < b then [ColCell.left c tt, ColCell.right c tt]
+       else if (a ≤ col ∧ col < b) ∨ (a ≤ col + 1 ∧ col + 1 < b) then [ColCell.narrow ' ' tt]
+       else []) ++ window u a b (col + 2) rest
+    else window u a b col rest
+
+private theorem cols_replicate_space (u : UEnv) (hsp : u.wcwidth ' ' = 1) (n : Nat) (tt : Atts) (out : List Cell) :
+    cols u (List.replicate n (' ', tt) ++ out) = List.replicate n (ColCell.narrow ' ' tt) ++ cols u out := by
+  induction n with
+  | zero => simp
+  | succ k ih => simp [List.replicate_succ, cols, hsp, ih]
+
+theorem SliceRel.window {u : UEnv} {a b : Nat} {colI : Int} {l out : List Cell}
+    (h : SliceRel u a b colI l out) (hsp : u.wcwidth ' ' = 1) (hs : u.sane (l.map Prod.fst)) :
+    ∀ col : Nat, colI = col → cols u out = window u a b col l := by
+  induction h with
+  | nil col => intro c _; rfl
+  | @zdrop colI x rest out hz _ ih =>
+    intro col hc
+    simp only [List.map_cons] at hs
+    obtain ⟨c, tt⟩ := x
+    simp only [Curtsies.window]
+    have h0 : u.wcwidth c = 0 := hz
+    rw [if_neg (by omega), if_neg (by omega)]
+    exact ih (UEnv.sane_cons hs).2 col hc
+  | @zkeep colI x rest out hz _ _ _ ih =>
+    intro col hc
+    simp only [List.map_cons] at hs
+    obtain ⟨c, tt⟩ := x
+    have h0 : u.wcwidth c = 0 := hz
+    simp only [Curtsies.window, cols]
+    rw [if_neg (by omega), if_neg (by omega), if_neg (by omega), if_neg (by omega)]
+    exact ih (UEnv.sane_cons hs).2 col hc
+  | @inside colI x rest out hw ha hb _ ih =>
+    intro col hc
+    simp only [List.map_cons] at hs
+    obtain ⟨c, tt⟩ := x
+    have hx := (UEnv.sane_cons hs).1
+    simp only [] at hx hw ha hb
+    simp only [Curtsies.window, cols]
+    by_cases h1 : u.wcwidth c = 1
+    · rw [if_pos h1, if_pos h1, if_pos (by omega)]
+      rw [h1] at ih
+      rw [ih (UEnv.sane_cons hs).2 (col + 1) (by omega)]; rfl
+    · have h2 : u.wcwidth c = 2 := by omega
+      rw [if_neg h1, if_pos h2, if_neg h1, if_pos h2, if_pos (by omega)]
+      rw [h2] at ih
+      rw [ih (UEnv.sane_cons hs).2 (col + 2) (by omega)]; rfl
+  | @cut colI x rest out hw hn _ ih =>
+    intro col hc
+    simp only [List.map_cons] at hs
+    obtain ⟨c, tt⟩ := x
+    have hx := (UEnv.sane_cons hs).1
+    simp only [] at hx hw hn
+    rw [cols_replicate_space u hsp]
+    simp only [Curtsies.window]
+    by_cases h1 : u.wcwidth c = 1
+    · rw [if_pos h1, if_neg (by omega)]
+      rw [h1] at ih
+      rw [ih (UEnv.sane_cons hs).2 (col + 1) (by omega)]
+      have : colOverlap a b colI (u.wcwidth c) = 0 := by unfold colOverlap; omega
+      rw [this]; rfl
+    · have h2 : u.wcwidth c = 2 := by omega
+      rw [if_neg h1, if_pos h2, if_neg (by omega)]
+      rw [h2] at ih
+      rw [ih (UEnv.sane_cons hs).2 (col + 2) (by omega)]
+      by_cases h3 : (a ≤ col ∧ col < b) ∨ (a ≤ col + 1 ∧ col + 1 < b)
+      · rw [if_pos h3]
+        have : colOverlap a b colI (u.wcwidth c) = 1 := by unfold colOverlap; omega
+        rw [this]; rfl
+      · rw [if_neg h3]
+        have : colOverlap a b colI (u.wcwidth c) = 0 := by unfold colOverlap; omega
+        rw [this]; rfl
+
+
+/-- does not start with a right half -/
+def NR (X : List ColCell) : Prop := ∀ c a r, X ≠ ColCell.right c a :: r
+
+private theorem cols_NR (u : UEnv) (l : List Cell) : NR (cols u l) := by
+  induction l with
+  | nil => intro c a r h; cases h
+  | cons x rest ih =>
+    obtain ⟨ch, tt⟩ := x
+    intro c a r
+    simp only [cols]
+    split
+    · intro h; cases h
+    · split
+      · intro h; cases h
+      · exact ih c a r
+
+private theorem NR_take {X : List ColCell} (h : NR X) (k : Nat) : NR (X.take k) := by
+  intro c a r hk
+  cases X with
+  | nil => simp at hk
+  | cons y Y =>
+    cases k with
+    | zero => simp at hk
+    | succ k =>
+      simp only [List.take_succ_cons, List.cons.injEq] at hk
+      exact h c a Y (by rw [hk.1])
+
+private theorem cutLast_cons (y : ColCell) {X : List ColCell} (h : X ≠ []) : cutLast (y :: X) = y :: cutLast X := by
+  cases X with
+  | nil => exact absurd rfl h
+  | cons z Z => cases y <;> simp [cutLast]
+
+private theorem NR_cutLast {X : List ColCell} (h : NR X) : NR (cutLast X) := by
+  cases X with
+  | nil => exact h
+  | cons y Y =>
+    cases Y with
+    | nil =>
+      cases y with
+      | narrow c a => exact h
+      | left c a => intro c' a' r hh; simp [cutLast] at hh
+      | right c a => exact absurd rfl (h c a [])
+    | cons z Z =>
+      rw [cutLast_cons y (by simp)]
+      intro c a r hh
+      simp only [List.cons.injEq] at hh
+      exact h c a (z :: Z) (by rw [hh.1])
+
+private theorem cutHead_NR {X : List ColCell} (h : NR X) : cutHead X = X := by
+  cases X with
+  | nil => rfl
+  | cons y Y =>
+    cases y with
+    | narrow c a => rfl
+    | left c a => rfl
+    | right c a => exact absurd rfl (h c a Y)
+
+private theorem window_empty (u : UEnv) (a b : Nat) (l : List Cell) (col : Nat) (h : b ≤ col) :
+    window u a b col l = [] := by
+  induction l generalizing col with
+  | nil => rfl
+  | cons x rest ih =>
+    obtain ⟨c, tt⟩ := x
+    simp only [window]
+    split
+    · rw [if_neg (by omega), ih (col + 1) (by omega)]; rfl
+    · split
+      · rw [if_neg (by omega), if_neg (by omega), ih (col + 2) (by omega)]; rfl
+      · exact ih col h
+
+private theorem take_drop_skip {α} (y : α) (C : List α) (a b col : Nat) (h1 : col < a) (h2 : a ≤ b) :
+    ((y :: C).take (b - col)).drop (a - col) = (C.take (b - (col + 1))).drop (a - (col + 1)) := by
+  have e1 : b - col = (b - (col + 1)) + 1 := by omega
+  have e2 : a - col = (a - (col + 1)) + 1 := by omega
+  rw [e1, e2, List.take_succ_cons, List.drop_succ_cons]
+
+private theorem take_drop_keep {α} (y : α) (C : List α) (a b col : Nat) (h1 : a ≤ col) (h2 : col < b) :
+    ((y :: C).take (b - col)).drop (a - col) = y :: (C.take (b - (col + 1))).drop (a - (col + 1)) := by
+  have e1 : b - col = (b - (col + 1)) + 1 := by omega
+  have e2 : a - col = 0 := by omega
+  have e3 : a - (col + 1) = 0 := by omega
+  rw [e1, e2, e3, List.take_succ_cons]; rfl
+
+private theorem window_eq (u : UEnv) (a b : Nat) (hab : a ≤ b) (l : List Cell) (col : Nat) :
+    window u a b col l = cutHead (cutLast (((cols u l).take (b - col)).drop (a - col))) := by
+  induction l generalizing col with
+  | nil => simp [window, cols, cutLast, cutHead]
+  | cons x rest ih =>
+    obtain ⟨c, tt⟩ := x
+    simp only [window, cols]
+    have hNR : ∀ k, NR ((cols u rest).take k) := fun k => NR_take (cols_NR u rest) k
+    by_cases h1 : u.wcwidth c = 1
+    · rw [if_pos h1, if_pos h1]
+      by_cases hlt : col < a
+      · rw [if_neg (by omega), take_drop_skip _ _ _ _ _ hlt hab, ← ih (col + 1)]; rfl
+      · by_cases hb : col < b
+        · rw [if_pos (by omega), take_drop_keep _ _ _ _ _ (by omega) hb, ih (col + 1)]
+          have e3 : a - (col + 1) = 0 := by omega
+          rw [e3, List.drop_zero, cutHead_NR (NR_cutLast (hNR _))]
+          by_cases hX : (cols u rest).take (b - (col + 1)) = []
+          · rw [hX]; rfl
+          · rw [cutLast_cons _ hX]; rfl
+        · rw [if_neg (by omega), window_empty u a b rest (col + 1) (by omega)]
+          have : b - col = 0 := by omega
+          rw [this]; simp [cutLast, cutHead]
+    · rw [if_neg h1, if_neg h1]
+      by_cases h2 : u.wcwidth c = 2
+      · rw [if_pos h2, if_pos h2]
+        have e2 : col + 1 + 1 = col + 2 := rfl
+        by_cases hA : col + 1 < a
+        · rw [if_neg (by omega), if_neg (by omega)]
+          rw [take_drop_skip _ _ _ _ _ (by omega) hab, take_drop_skip _ _ a b (col + 1) hA hab, e2,
+            ← ih (col + 2)]; rfl
+        · by_cases hB : col + 1 = a
+          · by_cases hC : b = a
+            · rw [if_neg (by omega), if_neg (by omega), window_empty u a b rest (col + 2) (by omega)]
+              have e3 : b - col = 1 := by omega
+              have e4 : a - col = 1 := by omega
+              rw [e3, e4]; simp [cutLast, cutHead]
+            · rw [if_neg (by omega), if_pos (by omega)]
+              rw [take_drop_skip _ _ _ _ _ (by omega) hab,
+                take_drop_keep _ _ a b (col + 1) (by omega) (by omega), e2, ih (col + 2)]
+              have e3 : a - (col + 2) = 0 := by omega
+              rw [e3, List.drop_zero, cutHead_NR (NR_cutLast (hNR _))]
+              by_cases hX : (cols u rest).take (b - (col + 2)) = []
+              · rw [hX]; simp [cutLast, cutHead]
+              · rw [cutLast_cons _ hX]; simp [cutHead]
+          · by_cases hb0 : b ≤ col
+            · rw [if_neg (by omega), if_neg (by omega), window_empty u a b rest (col + 2) (by omega)]
+              have : b - col = 0 := by omega
+              rw [this]; simp [cutLast, cutHead]
+            · by_cases hb1 : b = col + 1
+              · rw [if_neg (by omega), if_pos (by omega), window_empty u a b rest (col + 2) (by omega)]
+                have e3 : b - col = 1 := by omega
+                have e4 : a - col = 0 := by omega
+                rw [e3, e4]; simp [cutLast, cutHead]
+              · rw [if_pos (by omega)]
+                rw [take_drop_keep _ _ _ _ _ (by omega) (by omega)]
+                have e3 : a - (col + 1) = 0 := by omega
+                have e5 : b - (col + 1) = (b - (col + 2)) + 1 := by omega
+                rw [e3, List.drop_zero, e5, List.take_succ_cons, ih (col + 2)]
+                have e6 : a - (col + 2) = 0 := by omega
+                rw [e6, List.drop_zero, cutHead_NR (NR_cutLast (hNR _))]
+                by_cases hX : (cols u rest).take (b - (col + 2)) = []
+                · rw [hX]; simp [cutLast, cutHead]
+                · rw [cutLast_cons _ (by simp), cutLast_cons _ hX]; simp [cutHead]
+      · rw [if_neg h2, if_neg h2]
+        exact ih col
+
+
+/-- The column view: the columns of the slice are columns a..b-1 of `f`, an orphaned half of a double-width
+    character replaced by a space with that character's formatting. -/
+theorem C10_cols : C10_cols_full_statement := by
+  intro u f a b hs hsp hab
+  obtain ⟨r, hr, hrel⟩ := C10_slice u f a b hs
+  refine ⟨r, hr, ?_⟩
+  have hsf : u.sane ((cells f).map Prod.fst) := by rw [← text_eq_cells]; exact hs
+  rw [hrel.window hsp hsf 0 rfl, window_eq u a b hab (cells f) 0]
+  simp
 
 end Curtsies
